@@ -95,7 +95,12 @@ Inductive case :=
 (* holder.Parse on an issued SD-JWT: ok?, the claims it lists *)
 | CHolder (payload : val) (ds : list disc) (ok : bool) (claims : list (string * val))
 (* the specification function on a completed honest flow: claims, options, chosen sites, verifier output *)
-| CReveal (o : iopts) (claims : list (string * val)) (sel : list path) (out : val).
+| CReveal (o : iopts) (claims : list (string * val)) (sel : list path) (out : val)
+(* Credential.MakeSDJWT (issuer.NewFromVC): the subject, the other JWT / credential members, payload and disclosures *)
+| CIssueVC (o : iopts) (subject outer vcm : list (string * val)) (payload : val) (ds : list disc)
+(* Credential.CreateDisplayCredentialMap: hash, the credential subject of the SD-JWT, the given disclosures, the
+   displayed subject *)
+| CDisplay (a : N) (cs : val) (given : list disc) (out : val).
 
 Definition check_case (c : case) : bool :=
   match c with
@@ -124,6 +129,16 @@ Definition check_case (c : case) : bool :=
       | _ => false
       end
   | CReveal o claims sel out => equiv (reveal o sel claims) out
+  | CIssueVC o subject outer vcm payload ds =>
+      match issue_vc o subject outer vcm with
+      | Ok (pl, ds') => equiv (canon pl) (canon payload) && equiv (bag 0 ds') (bag 0 ds) && nodupp (map d_salt ds)
+      | _ => false
+      end
+  | CDisplay a cs given out =>
+      match display_subject a cs given with
+      | Ok v => equiv v out
+      | _ => false
+      end
   end.
 
 Fixpoint mismatches_from (i : nat) (cs : list case) : list nat :=
